@@ -192,7 +192,9 @@ func (c *SimConn) Peek(n int) ([]byte, error) {
 		copy(s, c.buf[c.r:c.r+n])
 		return s, err
 	}
-	return c.buf[c.r : c.r+n : c.r+n], err
+	// as bufio.Reader.Peek does, the view is a plain two-index slice: its capacity runs on over the octets that follow
+	// in the buffer (the next frames). A decoder that appends to its input writes over them.
+	return c.buf[c.r : c.r+n], err
 }
 
 func (c *SimConn) Discard(n int) (int, error) {
